@@ -716,8 +716,8 @@ team_class_lambda_f<T, S, N, L, C>::team_class_lambda_f(std::istream &in,
     throw exception::data_format("Cannot read number of classes");
 
   typename decltype(team_)::size_type s;
-  if (!(in >> s))
-    throw exception::data_format("Cannot read team size");
+  if (!(in >> s) || !s)
+    throw exception::data_format("Unknown/wrong team size");
 
   // `s` comes from the stream: it isn't trusted for an up-front allocation.
   for (decltype(s) i(0); i < s; ++i)
